@@ -127,6 +127,13 @@ def run(tier, rng, C):
         path = C.write_replay("C08", {"property": "C08", "case": k, "variants": g, "clause": "blocking and future-based variants differ"})
         print("VIOLATION property=C08 replay=%s" % path.replace(C.VERIF + "/", ""))
     v += len(bad) + v0
+    # the same library calls through the crate's own HTTP clients (reqwest, reqwest blocking, curl, ureq) against a scripted
+    # loopback server: the outcome must be the one an in-memory client given the same reply produces (gen/same.py)
+    from gen import same as SAME
+    bad_same, n_same = SAME.run("C08", SAME.poll_cases(rng), C)
+    v += bad_same
+    stats["through_bundled_adapters"] = n_same
+    stats["evaluations"] = stats.get("evaluations", 0) + n_same
     stats["rule"] = ("scripts over {pending, slow_down, failure} up to length %d x 13 terminal replies x 9 timeouts (none, 0, 3 s, 2.5 s, 1 h, 2^63 s, Duration::MAX, TimeDelta::MAX, TimeDelta::MAX+1 ns) "
                      "x 6 expires_in x 6 start instants (epoch, 2023, negative, near MAX_UTC, MIN_UTC, MAX_UTC) x clock shapes (steady 0/1/7 s, first reading past the deadline at each position, "
                      "reading exactly at the deadline, non-monotone, random boundary mix) x unbuildable request 1 in 11, sampled 1 in %d, each in 3 variants; "
